@@ -86,6 +86,8 @@ package server
 //@   ensures          [miss-once] statusOf(c) != cache.StatusHit && err == nil ==> $nexts == old($nexts) + 1
 //@   ensures          [at-most-once] $nexts <= old($nexts) + 1
 //@   ensures          [locks]     nolocks()
+// C04: the Age handed to the responder on a hit is the one computed by the lookup itself (same clock reading as the expiry check)
+//@   ensures_local    [hit-age]   cacheStatus == cache.StatusHit && err == nil ==> c.has[box("_httpRespAge")] && c.kv[box("_httpRespAge")] == box(age)
 
 // ---- which responses may be stored (proxy.go) ------------------------------------------
 
